@@ -105,7 +105,11 @@ def run_case(case):
             out["outcome"] = "raise"
             out["exc_class"] = type(e).__name__
             out["exc_mro"] = [c.__name__ for c in type(e).__mro__]
-            out["exc_msg"] = str(e)[:300] if not isinstance(e, UnicodeError) else repr(e)[:300]
+            try:
+                out["exc_msg"] = str(e)[:300]
+            except Exception as e2:  # the message itself cannot be rendered (reported by the C13 obligations)
+                out["exc_msg"] = "<__str__ raised %s: %s>" % (type(e2).__name__, e2)
+                out["exc_str_error"] = type(e2).__name__
             out["exc_lineno"] = getattr(e, "lineno", None)
             out["traceback"] = traceback.format_exc()[-1500:]
     out["inputs_after"] = {n: [dump_array(s._arr) for s in ss] for n, ss in stubs.items()}
